@@ -262,17 +262,17 @@ Section Queries.
     && forallb (fun nv => q_queryUtility L p (fst nv) (Some (snd nv))) ans
     && forallb (fun r => negb (ext (u_prov r) p) || existsb (Nat.eqb (u_name r)) (map fst ans)) (l_u L).
 
-  (* getAllUtilitiesRegisteredFor(p): one component per distinct (provided, ==-class) among the
-     registrations whose provided extends p.  Classes are compared as a bag. *)
+  (* getAllUtilitiesRegisteredFor(p) answered components with the equality classes [ans]: one
+     component per distinct (provided, ==-class) among the registrations whose provided extends p.
+     The representative of a class may be any object equal to the live ones (the implementation
+     keeps the first one subscribed while an equal one is still registered), so classes are
+     compared, as a bag. *)
   Definition q_getAllUtilities (L : ledger) (p : spec) (ans : list nat) : bool :=
     let live := filter (fun r => ext (u_prov r) p) (l_u L) in
-    let class_of v := match find (fun r => Nat.eqb (vid (u_comp r)) v) live with
-                      | Some r => Some (veq (u_comp r)) | None => None end in
     let provs := dedup_nat (map u_prov live) in
     let expected := flat_map (fun p' => dedup_nat (map (fun r => veq (u_comp r))
                                                      (filter (fun r => Nat.eqb (u_prov r) p') live))) provs in
-    forallb (fun v => match class_of v with Some _ => true | None => false end) ans
-    && same_bag (map (fun v => match class_of v with Some c => c | None => 0 end) ans) expected.
+    same_bag ans expected.
 
   (* adapters *)
   Definition a_req (r : arec) : list spec := let '(q, _, _, _, _) := r in q.
